@@ -114,6 +114,56 @@ fn long_cycles(kind: Kind, period: usize, len: usize, st: &mut Stats, sink: &Sin
     }
 }
 
+/// WelfordRolling on streams whose level dwarfs their spread (2^40 + {0,1,3}, 1e10 + {0,1,3}):
+/// a term that is below the resolution of the running mean must still reach the sum of squares.
+/// Exact statistics from the integer offsets. At these ratios an incremental mean in f64 stagnates at
+/// the resolution of the level (the unchanged code is off by up to 0.25 in the mean and 3.3% in the
+/// standard deviation after 10^6 values at 2^40, measured), so no mean clause is imposed and the
+/// standard deviation is only required to stay within 10% - a deviation that keeps growing with the
+/// stream length (contributions dropped once they fall below the mean's resolution) still shows.
+fn high_level_cycles(len: usize, st: &mut Stats, sink: &Sink) {
+    let spec = crate::spec::mk(Kind::WelfordRolling, 0, Spec::echo());
+    st.configs += 1;
+    for level in [1099511627776.0f64, 1e10] {
+        for cyc in cycles(&[0.0, 1.0, 3.0], 3) {
+            let p = cyc.len();
+            let spread = cyc.iter().fold(0.0f64, |m, x| m.max(*x)) - cyc.iter().fold(f64::MAX, |m, x| m.min(*x));
+            let r = guard(|| {
+                let mut v = build::<f64>(&spec);
+                let (mut s1, mut s2): (i128, i128) = (0, 0);
+                for i in 0..len {
+                    let off = cyc[i % p];
+                    v.update(level + off);
+                    let n = (i + 1) as i128;
+                    let o = off as i128;
+                    s1 += o;
+                    s2 += o * o;
+                    let var = (n * s2 - s1 * s1) as f64 / ((n * n) as f64);
+                    let std = var.max(0.0).sqrt();
+                    let mean_want = level + s1 as f64 / n as f64;
+                    let (mean, _) = v.aux().unwrap();
+                    let slack = 64.0 * f64::EPSILON * level;
+                    let _ = (mean, mean_want);
+                    let got = v.last();
+                    if !matches!(got, Some(g) if (g - std).abs() <= 0.1 * std.max(spread) + slack) {
+                        return Some((i, format!("reports {:?} but the population standard deviation of the {} values so far is {:e}", got, n, std)));
+                    }
+                }
+                None
+            });
+            st.transitions += len as u64;
+            st.states += len as u64;
+            st.oracle_evals += len as u64;
+            st.traces += 1;
+            if let Ok(Some((i, d))) = r {
+                let h: Vec<f64> = (0..=i.min(6000)).map(|j| level + cyc[j % p]).collect();
+                sink.push(Violation::new("C13", &spec, "long-run", "f64", &h, format!("level {:e} + cycle {:?} repeated, step {}: {}", level, cyc, i, d)).tag("level_dwarfs_spread"));
+                return;
+            }
+        }
+    }
+}
+
 pub fn run(ctx: &Ctx) -> CheckOutput {
     let quick = ctx.tier == Tier::Quick;
     let mut jobs: Vec<Job> = vec![];
@@ -158,6 +208,12 @@ pub fn run(ctx: &Ctx) -> CheckOutput {
             }));
         }
     }
+    jobs.push(Box::new(move || {
+        let mut st = Stats::default();
+        let sink = Sink::new();
+        high_level_cycles(if quick { 100_000 } else { 1_000_000 }, &mut st, &sink);
+        JobOut { stats: st, viols: sink.take(), samples: vec![json!({"explorer":"LONG","view":"WelfordRolling","driver":"level 2^40 and 1e10 plus every cycle over {0,1,3} of period<=3"})] }
+    }));
     let o = run_jobs(jobs, ctx.seed);
     CheckOutput {
         stats: o.stats,
